@@ -323,9 +323,12 @@ CLAIMED = {
              "table every completion is processed with the entry of the operation it was submitted as, the buffers of every operation the "
              "kernel holds stay owned, no two kernel-held operations share a user_data, the table is empty when the kernel holds nothing "
              "and a closed descriptor is no longer named - whatever is submitted, closed and completed in whatever order; four "
-             "counterexample theorems state what the earlier shapes of the table did. 19 theorems. KNOWN FINDING "
-             "C20:uring-rare-connection-stall (about one fresh connection in 1500 never carries data; symptom-only, a matching case is "
-             "attributed to it only after three clean replays). Six defects the machinery found were repaired (9th connection never "
+             "counterexample theorems state what the earlier shapes of the table did; a shutdown request only ever hits the connection it was "
+             "issued for, however descriptor numbers are reused (FdTable; counterexample for requests that name the number only). 22 theorems. KNOWN FINDING "
+             "C20:uring-rare-connection-stall (about one fresh connection in 1500 never carried data; a cause was found and repaired - late "
+             "shutdown requests hitting the next owner of a descriptor number, see the FdTable theorems - and it has not been seen in 144 "
+             "stress runs since; kept listed because that evidence is statistical; a matching case is attributed to it only after three "
+             "clean replays). Six defects the machinery found were repaired (9th connection never "
              "attached; in-flight send buffers freed at close and freed memory transmitted; completions attributed to the wrong "
              "operation after a close; zero-copy notifications shadowed; two zero-copy sends sharing a user_data; the handler never "
              "closed a connection by itself - protocol errors, handshake deadline, heartbeat timeout - and a close was not seen by the "
